@@ -363,7 +363,7 @@ def rules(ctx: Ctx) -> None:
     taint = Taint(prog, ctx)
     # dispatcher: PATH_INFO and body
     denv: dict[str, object] = {}
-    for name_, defs in prog._defs_cache.get(disp.qual, None) or (prog.local_defs(disp, "") or prog._defs_cache[disp.qual]).items():
+    for name_, defs in (prog.local_defs(disp, "") or prog._defs_cache[disp.qual]).items():
         for kind, node in defs:
             if kind == "assign" and isinstance(node.value, ast.Subscript) and u(node.value.value) == environ and prog.try_fold(node.value.slice, disp.mod, disp) == "PATH_INFO":
                 denv[name_] = frozenset({Label("PATH_INFO", "raw")})
